@@ -39,8 +39,8 @@ package project
 //@ func project.SplitPathVersion
 //@   ensures no-version: result.1 == "" ==> (result.0 == p || (len(result.0) + 1 == len(p) && p[len(result.0)] == 64))
 //@   ensures split: result.1 != "" ==> (len(result.0) + 1 + len(result.1) == len(p) && p[len(result.0)] == 64 && result.0 == p[:len(result.0)] && result.1 == p[len(result.0) + 1:])
-//@   loop 0: invariant -1 <= i && i < len(p)
-//@   loop 0: invariant forall j: int :: i < j && j < len(p) ==> (p[j] != 47 && p[j] != 64)
+//@   loop over for#1: invariant -1 <= i && i < len(p)
+//@   loop over for#1: invariant forall j: int :: i < j && j < len(p) ==> (p[j] != 47 && p[j] != 64)
 
 // The major-version suffix is dropped exactly for "", v0 and v1.
 //@ func project.JoinPathVersion
